@@ -16,9 +16,21 @@
   * `MixOK`      : the input mixture has non-negative weights of total 1.
   Nothing is assumed on where the heralds sit, on their values, on the photon numbers of the groups (a group may
   hold fewer photons than the heralds ask for), on the filter value or on the post-selection expression.
+
+  Further sections: detectors (all-PNR lists take the mask path; any list with a threshold / pseudo-PNR detector takes
+  the mask-free path of `simulate_detectors`, proved equal to the conditioning of the detected-pattern distribution
+  under `KernsOK` — rows of the kernels are probability distributions without photon gain; `condition_spec_detectors`
+  is the statement for every layout); `Simulator.evolve` / `evolve_svd` (logical / physical performance bookkeeping,
+  `evolve_logical_perf_spec`, `evolve_svd_perf_spec`); `HeraldsWF` derived from the declaration of the heralds
+  (`heralds_wf_of_declared`).
+
+  NOT proved (validated by the correspondence only, or outside the model): see the list at the end of this file.
 -/
 import PercevalModel.Lemmas.C04
 import PercevalModel.Lemmas.C04Mass
+import PercevalModel.Lemmas.C04Det
+import PercevalModel.Lemmas.C04Evolve
+import PercevalModel.Lemmas.C04More
 import PercevalModel.Props.C02
 
 namespace PM.C04
@@ -451,8 +463,8 @@ theorem detectedFull_pnr (eng : Fock → D) (c : Cfg) (ds : List Det) (members :
 
 /-- **condition_spec_pnr_detectors.**  With photon-number-resolving detectors everywhere the answer is the
 conditioning of the distribution of detected patterns — the statement of `condition_spec`, `physical_perf_spec`,
-`logical_perf_spec` read on `detectedFull`.  (For layouts containing a threshold / pseudo-PNR detector the
-code-shaped model `probsSvdDet` is only *validated* against `detectedFull` by the correspondence.) -/
+`logical_perf_spec` read on `detectedFull`.  (Layouts containing a threshold / pseudo-PNR detector — mask off —
+are `condition_spec_nonpnr_detectors` … below; `condition_spec_detectors` covers every layout.) -/
 theorem condition_spec_pnr_detectors (eng : Fock → D) (c : Cfg) (ds : List Det) (members : List Member)
     (hp : allPnr ds = true) (hl : ds = [] ∨ ds.length = c.m)
     (wf : HeraldsWF c.m c.heralds) (he : EngOK eng c.m members) (hmix : MixOK members)
@@ -618,5 +630,453 @@ example : (probsSvd (probsFock PM.C02.exU) uCfg uMembers).phys * (probsSvd (prob
     unfold physPerf at h0
     linarith)
   rw [h.1, uRet']
+
+
+/-! ### detectors that are not all PNR: the herald mask is off, `simulate_detectors` filters the detected pattern
+
+`probsSvdDet` on a list containing a threshold / pseudo-PNR detector (anywhere: on a data mode or on a heralded
+mode) is the code-shaped model of the mask-free path: input-side photon filter, renormalisation, detector kernels,
+detected-side photon filter with its own performance factor, renormalisation, `post_select_distribution`.  The
+theorems below say that this equals the *specification* — one conditioning of the distribution of detected
+patterns `detectedFull`.  Hypotheses: the engine and the mixture as before, and `KernsOK N` on the kernels for the
+photon numbers `0..N` that occur (rows are probability distributions, no detector reports more photons than it
+received — true of `Detector.pnr/threshold` for every `N` (`kernsOK_builtin`), and of the closed-form kernels of
+interleaved pseudo-PNR detectors).  `HeraldsWF` is *not* needed on this path. -/
+
+/-- **physical performance with non-PNR detectors** = probability that the *detected* pattern passes the photon
+filter (the code's product `(1 - Σ inputs below the filter) · (passing fraction after detection)`). -/
+theorem physical_perf_spec_nonpnr_detectors (eng : Fock → D) (c : Cfg) (ds : List Det) (members : List Member)
+    (N : ℕ) (hp : allPnr ds = false) (he : EngOK eng c.m members) (hmix : MixOK members)
+    (hN : ∀ mb ∈ members, mb.n ≤ N) (hK : KernsOK N (ds.map Det.kern)) :
+    (probsSvdDet eng c ds members).phys = physPerf (cond c) (detectedFull eng c.m ds members) := by
+  have F := detFacts eng c ds members N hp he hmix hN hK
+  rw [probsSvdDet_nonpnr eng c ds members hp]
+  unfold physPerf
+  by_cases h0 : mass (codeRes eng { c with pnr := false } members) = 0
+  · rw [if_pos h0]
+    have hP : physInputs c members = 0 := by rw [← F.massX]; exact h0
+    rw [F.zero hP]
+    exact hP
+  · rw [if_neg h0]
+    have hP : physInputs c members ≠ 0 := by rw [← F.massX]; exact h0
+    have h1 := mass_restrict_add (physOk (cond c)) (detRes eng c ds members)
+    rw [F.massDet h0, F.pass h0, mass_scale] at h1
+    have h2 : 1 - mass (restrict (fun t => !physOk (cond c) t) (detRes eng c ds members)) =
+        (physInputs c members)⁻¹ * mass (restrict (physOk (cond c)) (detectedFull eng c.m ds members)) := by
+      linarith
+    show physInputs c members * (1 - mass (restrict (fun t => !physOk (cond c) t) (detRes eng c ds members))) = _
+    rw [h2]
+    field_simp
+
+/-- **condition_spec with non-PNR detectors.**  Whenever something is retained, the returned distribution *is*
+(as a list) the distribution of detected patterns restricted to filter ∧ heralds ∧ post-selection, heralded modes
+removed (unless kept), renormalised. -/
+theorem condition_spec_nonpnr_detectors (eng : Fock → D) (c : Cfg) (ds : List Det) (members : List Member)
+    (N : ℕ) (hp : allPnr ds = false) (he : EngOK eng c.m members) (hmix : MixOK members)
+    (hN : ∀ mb ∈ members, mb.n ≤ N) (hK : KernsOK N (ds.map Det.kern))
+    (hret : mass (retained (cond c) (detectedFull eng c.m ds members)) ≠ 0) :
+    (probsSvdDet eng c ds members).results = conditioned (cond c) (detectedFull eng c.m ds members) := by
+  have F := detFacts eng c ds members N hp he hmix hN hK
+  have e1 : retained (cond c) (detectedFull eng c.m ds members) =
+      restrict (logicOk (cond c)) (restrict (physOk (cond c)) (detectedFull eng c.m ds members)) := by
+    rw [restrict_restrict]; rfl
+  have hRY : mass (restrict (logicOk (cond c)) (restrict (physOk (cond c)) (detectedFull eng c.m ds members))) ≠ 0 := by
+    rwa [e1] at hret
+  have hY : mass (restrict (physOk (cond c)) (detectedFull eng c.m ds members)) ≠ 0 := by
+    intro h
+    apply hRY
+    have h1 := mass_restrict_le F.nnY (logicOk (cond c))
+    have h2 := (F.nnY.restrict (logicOk (cond c))).mass_nonneg
+    linarith
+  have hP : physInputs c members ≠ 0 := fun h => hY (F.zero h)
+  have h0 : mass (codeRes eng { c with pnr := false } members) ≠ 0 := by rw [F.massX]; exact hP
+  rw [probsSvdDet_nonpnr eng c ds members hp, if_neg h0]
+  show (postSelect c (normalize (restrict (physOk (cond c)) (detRes eng c ds members)))).1 = _
+  rw [F.pass h0, normalize_scale _ (inv_ne_zero hP) _ hY, postSelect_normalize_fst c _ hY hRY]
+  unfold conditioned
+  rw [e1]
+
+/-- **logical performance with non-PNR detectors**, full statement.  It is the specification's
+P(heralds ∧ post-selection | detected pattern passes the filter) — except in the degenerate case where some input
+passes the input-side filter but no detected pattern can pass the detected-side one (conditioning on an event of
+probability 0): there the code reports 1, where the specification's convention (and the PNR path) is 0. -/
+theorem logical_perf_nonpnr_detectors_full (eng : Fock → D) (c : Cfg) (ds : List Det) (members : List Member)
+    (N : ℕ) (hp : allPnr ds = false) (he : EngOK eng c.m members) (hmix : MixOK members)
+    (hN : ∀ mb ∈ members, mb.n ≤ N) (hK : KernsOK N (ds.map Det.kern)) :
+    (probsSvdDet eng c ds members).logical =
+      if physPerf (cond c) (detectedFull eng c.m ds members) = 0 ∧ physInputs c members ≠ 0 then 1
+      else logicalPerf (cond c) (detectedFull eng c.m ds members) := by
+  have F := detFacts eng c ds members N hp he hmix hN hK
+  have e1 : retained (cond c) (detectedFull eng c.m ds members) =
+      restrict (logicOk (cond c)) (restrict (physOk (cond c)) (detectedFull eng c.m ds members)) := by
+    rw [restrict_restrict]; rfl
+  rw [probsSvdDet_nonpnr eng c ds members hp]
+  unfold logicalPerf physPerf
+  by_cases h0 : mass (codeRes eng { c with pnr := false } members) = 0
+  · rw [if_pos h0]
+    have hP : physInputs c members = 0 := by rw [← F.massX]; exact h0
+    simp [hP, F.zero hP]
+  · rw [if_neg h0]
+    have hP : physInputs c members ≠ 0 := by rw [← F.massX]; exact h0
+    have hPpos : 0 < physInputs c members := lt_of_le_of_ne F.physNonneg (Ne.symm hP)
+    show (if 0 < mass (codeRes eng { c with pnr := false } members) ∧ 0 < physInputs c members
+            then mass (codeRes eng { c with pnr := false } members) / physInputs c members
+            else mass (codeRes eng { c with pnr := false } members)) *
+          (postSelect c (normalize (restrict (physOk (cond c)) (detRes eng c ds members)))).2 = _
+    rw [F.massX, if_pos ⟨hPpos, hPpos⟩, div_self hP, one_mul, F.pass h0]
+    by_cases hY : mass (restrict (physOk (cond c)) (detectedFull eng c.m ds members)) = 0
+    · rw [if_pos ⟨hY, hP⟩]
+      apply postSelect_snd_of_mass_zero
+      · exact F.nnY.scale (le_of_lt (inv_pos.2 hPpos))
+      · rw [mass_scale, hY, mul_zero]
+    · rw [if_neg (fun h => hY h.1), if_neg hY, normalize_scale _ (inv_ne_zero hP) _ hY,
+        postSelect_normalize_snd c _ hY, e1]
+
+/-- …in particular, whenever the detected pattern can pass the filter, it is the specification's -/
+theorem logical_perf_spec_nonpnr_detectors (eng : Fock → D) (c : Cfg) (ds : List Det) (members : List Member)
+    (N : ℕ) (hp : allPnr ds = false) (he : EngOK eng c.m members) (hmix : MixOK members)
+    (hN : ∀ mb ∈ members, mb.n ≤ N) (hK : KernsOK N (ds.map Det.kern))
+    (hphys : physPerf (cond c) (detectedFull eng c.m ds members) ≠ 0) :
+    (probsSvdDet eng c ds members).logical = logicalPerf (cond c) (detectedFull eng c.m ds members) := by
+  rw [logical_perf_nonpnr_detectors_full eng c ds members N hp he hmix hN hK, if_neg (fun h => hphys h.1)]
+
+/-- **perf_product with non-PNR detectors**, without any side condition: physical × logical performance = total
+retained probability of the distribution of detected patterns (also in the degenerate case above: both sides 0) -/
+theorem perf_product_nonpnr_detectors (eng : Fock → D) (c : Cfg) (ds : List Det) (members : List Member)
+    (N : ℕ) (hp : allPnr ds = false) (he : EngOK eng c.m members) (hmix : MixOK members)
+    (hN : ∀ mb ∈ members, mb.n ≤ N) (hK : KernsOK N (ds.map Det.kern)) :
+    (probsSvdDet eng c ds members).phys * (probsSvdDet eng c ds members).logical =
+      mass (retained (cond c) (detectedFull eng c.m ds members)) := by
+  have F := detFacts eng c ds members N hp he hmix hN hK
+  rw [physical_perf_spec_nonpnr_detectors eng c ds members N hp he hmix hN hK]
+  by_cases hphys : physPerf (cond c) (detectedFull eng c.m ds members) = 0
+  · rw [hphys, zero_mul]
+    have e1 : retained (cond c) (detectedFull eng c.m ds members) =
+        restrict (logicOk (cond c)) (restrict (physOk (cond c)) (detectedFull eng c.m ds members)) := by
+      rw [restrict_restrict]; rfl
+    have h1 := mass_restrict_le F.nnY (logicOk (cond c))
+    have h2 := (F.nnY.restrict (logicOk (cond c))).mass_nonneg
+    unfold physPerf at hphys
+    rw [e1]
+    linarith
+  · rw [logical_perf_spec_nonpnr_detectors eng c ds members N hp he hmix hN hK hphys]
+    exact SimSpec.perf_product _ _ hphys
+
+/-- **condition_spec_detectors** — every detector layout (absent, all PNR, threshold, pseudo-PNR, mixed; on data
+modes or on heralded modes; mask on or off).  The three outputs of `probs_svd(svd, detectors)` are the conditioning
+of the distribution of detected patterns. -/
+theorem condition_spec_detectors (eng : Fock → D) (c : Cfg) (ds : List Det) (members : List Member) (N : ℕ)
+    (hl : ds = [] ∨ ds.length = c.m) (wf : HeraldsWF c.m c.heralds) (he : EngOK eng c.m members)
+    (hmix : MixOK members) (hN : ∀ mb ∈ members, mb.n ≤ N) (hK : KernsOK N (ds.map Det.kern))
+    (hret : mass (retained (cond c) (detectedFull eng c.m ds members)) ≠ 0) :
+    (probsSvdDet eng c ds members).results = conditioned (cond c) (detectedFull eng c.m ds members) ∧
+    (probsSvdDet eng c ds members).phys = physPerf (cond c) (detectedFull eng c.m ds members) ∧
+    (probsSvdDet eng c ds members).logical = logicalPerf (cond c) (detectedFull eng c.m ds members) := by
+  by_cases hp : allPnr ds = true
+  · exact condition_spec_pnr_detectors eng c ds members hp hl wf he hmix hret
+  · have hp' : allPnr ds = false := by simpa using hp
+    have F := detFacts eng c ds members N hp' he hmix hN hK
+    refine ⟨condition_spec_nonpnr_detectors eng c ds members N hp' he hmix hN hK hret,
+      physical_perf_spec_nonpnr_detectors eng c ds members N hp' he hmix hN hK,
+      logical_perf_spec_nonpnr_detectors eng c ds members N hp' he hmix hN hK ?_⟩
+    intro h
+    apply hret
+    have e1 : retained (cond c) (detectedFull eng c.m ds members) =
+        restrict (logicOk (cond c)) (restrict (physOk (cond c)) (detectedFull eng c.m ds members)) := by
+      rw [restrict_restrict]; rfl
+    have h1 := mass_restrict_le F.nnY (logicOk (cond c))
+    have h2 := (F.nnY.restrict (logicOk (cond c))).mass_nonneg
+    unfold physPerf at h
+    rw [e1]
+    linarith
+
+/-- the same for the built-in detectors (none / `Detector.pnr()` / `Detector.threshold()`, in any arrangement):
+no hypothesis on kernels or photon numbers is left -/
+theorem condition_spec_builtin_detectors (eng : Fock → D) (c : Cfg) (ds : List Det) (members : List Member)
+    (hb : ∀ d ∈ ds, d.builtin = true)
+    (hl : ds = [] ∨ ds.length = c.m) (wf : HeraldsWF c.m c.heralds) (he : EngOK eng c.m members)
+    (hmix : MixOK members)
+    (hret : mass (retained (cond c) (detectedFull eng c.m ds members)) ≠ 0) :
+    (probsSvdDet eng c ds members).results = conditioned (cond c) (detectedFull eng c.m ds members) ∧
+    (probsSvdDet eng c ds members).phys = physPerf (cond c) (detectedFull eng c.m ds members) ∧
+    (probsSvdDet eng c ds members).logical = logicalPerf (cond c) (detectedFull eng c.m ds members) :=
+  condition_spec_detectors eng c ds members ((members.map (·.n)).sum) hl wf he hmix
+    (fun _ hmb => List.single_le_sum (fun _ _ => Nat.zero_le _) _ (List.mem_map_of_mem hmb))
+    (kernsOK_builtin _ ds hb) hret
+
+
+/-! non-vacuity of the detector theorems (`Lemmas/C04Det.lean`: `dCfg`, `dMembers`, `dDets` = threshold detector on
+the data mode, `dDetsP` = threshold detector on the *heralded* mode and an interleaved pseudo-PNR kernel table on the
+data mode): every hypothesis holds and half of the probability is retained -/
+
+example : allPnr dDets = false ∧ EngOK idEng dCfg.m dMembers ∧ MixOK dMembers ∧ (∀ mb ∈ dMembers, mb.n ≤ 3) ∧
+    KernsOK 3 (dDets.map Det.kern) ∧ mass (retained (cond dCfg) (detectedFull idEng dCfg.m dDets dMembers)) ≠ 0 :=
+  ⟨by decide, dEng, dMix, dN, kernsOK_builtin 3 dDets (by decide), by rw [dRet]; norm_num⟩
+
+example : (probsSvdDet idEng dCfg dDets dMembers).results =
+    conditioned (cond dCfg) (detectedFull idEng dCfg.m dDets dMembers) :=
+  condition_spec_nonpnr_detectors idEng dCfg dDets dMembers 3 (by decide) dEng dMix dN
+    (kernsOK_builtin 3 dDets (by decide)) (by rw [dRet]; norm_num)
+
+example : (probsSvdDet idEng dCfg dDetsP dMembers).results =
+      conditioned (cond dCfg) (detectedFull idEng dCfg.m dDetsP dMembers) ∧
+    (probsSvdDet idEng dCfg dDetsP dMembers).phys = physPerf (cond dCfg) (detectedFull idEng dCfg.m dDetsP dMembers) ∧
+    (probsSvdDet idEng dCfg dDetsP dMembers).logical =
+      logicalPerf (cond dCfg) (detectedFull idEng dCfg.m dDetsP dMembers) :=
+  condition_spec_detectors idEng dCfg dDetsP dMembers 3 (Or.inr rfl) dWF dEng dMix dN dKernsP
+    (by rw [dRetP]; norm_num)
+
+example : (probsSvdDet idEng dCfg dDets dMembers).phys = physPerf (cond dCfg) (detectedFull idEng dCfg.m dDets dMembers) :=
+  physical_perf_spec_nonpnr_detectors idEng dCfg dDets dMembers 3 (by decide) dEng dMix dN
+    (kernsOK_builtin 3 dDets (by decide))
+
+example : (probsSvdDet idEng dCfg dDets dMembers).phys * (probsSvdDet idEng dCfg dDets dMembers).logical = 1 / 2 := by
+  rw [perf_product_nonpnr_detectors idEng dCfg dDets dMembers 3 (by decide) dEng dMix dN
+    (kernsOK_builtin 3 dDets (by decide)), dRet]
+
+example : (probsSvdDet idEng dCfg dDets dMembers).results =
+    conditioned (cond dCfg) (detectedFull idEng dCfg.m dDets dMembers) :=
+  (condition_spec_builtin_detectors idEng dCfg dDets dMembers (by decide) (Or.inr rfl) dWF dEng dMix
+    (by rw [dRet]; norm_num)).1
+
+/-- the degenerate case of `logical_perf_nonpnr_detectors_full` is reachable: one mode, threshold detector, filter 2,
+input `|2>` — the input passes the input-side filter, the detected pattern `|1>` cannot pass the detected-side one;
+the code's logical performance is 1 where the specification's convention is 0 (physical performance 0 either way) -/
+example :
+    (probsSvdDet idEng { m := 1, heralds := [], ps := .tt, userFilter := 2, keepHeralds := false, pnr := true }
+      [.thr] [⟨1, [[2]]⟩]).logical = 1 ∧
+    logicalPerf (cond { m := 1, heralds := [], ps := .tt, userFilter := 2, keepHeralds := false, pnr := true })
+      (detectedFull idEng 1 [.thr] [⟨1, [[2]]⟩]) = 0 ∧
+    (probsSvdDet idEng { m := 1, heralds := [], ps := .tt, userFilter := 2, keepHeralds := false, pnr := true }
+      [.thr] [⟨1, [[2]]⟩]).phys = 0 := by
+  refine ⟨?_, ?_, ?_⟩
+  · simp [probsSvdDet, allPnr, Det.isPnr, physInputs, minFilter, nHeralds, Member.n, kept, memberDist, convAll,
+      groupDist, canUseMask, idEng, mix, scale, conv, zeros, fadd, List.replicate, mass, Dist.normalize, detect,
+      detectState, Det.kern, restrict, postSelect, hasCond]
+  · simp [logicalPerf, physPerf, cond, detectedFull, full, fullMember, convAll, idEng, mix, scale, conv, zeros, fadd,
+      List.replicate, mass, detect, detectState, Det.kern, restrict, physOk, minFilter, nHeralds]
+  · simp [probsSvdDet, allPnr, Det.isPnr, physInputs, minFilter, nHeralds, Member.n, kept, memberDist, convAll,
+      groupDist, canUseMask, idEng, mix, scale, conv, zeros, fadd, List.replicate, mass, Dist.normalize, detect,
+      detectState, Det.kern, restrict]
+
+/-- the detector theorems for a unitary circuit: no hypothesis on the engine (built-in detectors: none on kernels) -/
+theorem condition_spec_builtin_detectors_unitary {m : ℕ} (c : Cfg) (hcm : c.m = m) (U : Matrix (Fin m) (Fin m) GQ)
+    (hU : IsUnitary U) (ds : List Det) (members : List Member) (hb : ∀ d ∈ ds, d.builtin = true)
+    (hl : ds = [] ∨ ds.length = m) (wf : HeraldsWF c.m c.heralds)
+    (hlen : ∀ mb ∈ members, ∀ s ∈ mb.groups, s.length = m) (hmix : MixOK members)
+    (hret : mass (retained (cond c) (detectedFull (probsFock U) m ds members)) ≠ 0) :
+    (probsSvdDet (probsFock U) c ds members).results =
+      conditioned (cond c) (detectedFull (probsFock U) m ds members) ∧
+    (probsSvdDet (probsFock U) c ds members).phys = physPerf (cond c) (detectedFull (probsFock U) m ds members) ∧
+    (probsSvdDet (probsFock U) c ds members).logical =
+      logicalPerf (cond c) (detectedFull (probsFock U) m ds members) := by
+  subst hcm
+  exact condition_spec_builtin_detectors _ c ds members hb hl wf (fock_engine_ok U hU members hlen) hmix hret
+
+/-- …and with kernel tables (interleaved pseudo-PNR) -/
+theorem condition_spec_detectors_unitary {m : ℕ} (c : Cfg) (hcm : c.m = m) (U : Matrix (Fin m) (Fin m) GQ)
+    (hU : IsUnitary U) (ds : List Det) (members : List Member) (N : ℕ)
+    (hl : ds = [] ∨ ds.length = m) (wf : HeraldsWF c.m c.heralds)
+    (hlen : ∀ mb ∈ members, ∀ s ∈ mb.groups, s.length = m) (hmix : MixOK members)
+    (hN : ∀ mb ∈ members, mb.n ≤ N) (hK : KernsOK N (ds.map Det.kern))
+    (hret : mass (retained (cond c) (detectedFull (probsFock U) m ds members)) ≠ 0) :
+    (probsSvdDet (probsFock U) c ds members).results =
+      conditioned (cond c) (detectedFull (probsFock U) m ds members) ∧
+    (probsSvdDet (probsFock U) c ds members).phys = physPerf (cond c) (detectedFull (probsFock U) m ds members) ∧
+    (probsSvdDet (probsFock U) c ds members).logical =
+      logicalPerf (cond c) (detectedFull (probsFock U) m ds members) := by
+  subst hcm
+  exact condition_spec_detectors _ c ds members N hl wf (fock_engine_ok U hU members hlen) hmix hN hK hret
+
+/-! ### `Simulator.evolve` / `evolve_svd`: the logical-performance bookkeeping
+
+Model: `evolveGroup`, `evolveMerged`, `evolveLogical`, `evolveSvd` (`Lemmas/C04Evolve.lean`; squared amplitudes).
+Hypotheses on the engine, for the groups of the input: `m`-mode outputs with the group's photon number, total
+probability 1, and the vacuum goes to the vacuum (`eng s = [(s, 1)]` when `s` holds no photon: `evolve` appends a
+vacuum group without calling the engine) — all three proved for the Fock-space engine of a unitary matrix
+(`probsFock_shape`, `probsFock_total_one`, `probsFock_vacuum`), see `evolve_logical_perf_unitary`. -/
+
+/-- **mask invariance for `evolve`.**  The squared amplitudes that `post_select_statevector` accepts in the state
+recombined from the masked, budgeted group outputs are — as a list — the accepted part of the unconditioned product
+of the groups' full outputs. -/
+theorem evolve_mask_invariance (eng : Fock → D) (c : Cfg) (groups : List Fock) (hne : groups ≠ [])
+    (wf : HeraldsWF c.m c.heralds)
+    (hshape : ∀ s ∈ groups, ∀ q ∈ eng s, q.1.length = c.m ∧ q.1.sum = s.sum)
+    (hvac : ∀ s ∈ groups, s.sum = 0 → eng s = [(s, 1)]) :
+    restrict (logicOk (cond c)) (evolveMerged eng c groups) =
+    restrict (logicOk (cond c)) (fullMember eng c.m ⟨1, groups⟩) :=
+  evolve_accepted_eq eng c groups hne wf hshape hvac
+
+/-- `logical_perf` after `evolve(one annotated Fock state)` = probability that the unconditioned output of that
+input satisfies the heralds and the post-selection -/
+theorem evolve_logical_perf_member (eng : Fock → D) (c : Cfg) (groups : List Fock) (hne : groups ≠ [])
+    (wf : HeraldsWF c.m c.heralds)
+    (hshape : ∀ s ∈ groups, ∀ q ∈ eng s, q.1.length = c.m ∧ q.1.sum = s.sum)
+    (hvac : ∀ s ∈ groups, s.sum = 0 → eng s = [(s, 1)])
+    (hone : ∀ s ∈ groups, mass (eng s) = 1) :
+    evolveLogical eng c groups = mass (restrict (logicOk (cond c)) (fullMember eng c.m ⟨1, groups⟩)) := by
+  unfold evolveLogical
+  split
+  · next hnc =>
+    have hnc' : hasCond c.ps = false ∧ c.heralds.isEmpty = true := by simpa using hnc
+    have hps := hasCond_false hnc'.1
+    have hh : c.heralds = [] := by simpa using hnc'.2
+    rw [restrict_of_all, mass_fullMember eng c.m ⟨1, groups⟩ hone]
+    intro p _
+    simp [logicOk, cond, heraldsOk, hps, hh, PS.eval]
+  · rw [evolve_accepted_eq eng c groups hne wf hshape hvac]
+
+/-- **evolve_logical_perf_spec** — in the specification's terms: `Simulator.logical_perf` after `evolve` is the
+retained mass (heralds ∧ post-selection; `evolve` applies no user photon filter) of the unconditioned output
+distribution of the input — the quantity the correspondence compares `sim.logical_perf` with. -/
+theorem evolve_logical_perf_spec (eng : Fock → D) (c : Cfg) (groups : List Fock) (hne : groups ≠ [])
+    (wf : HeraldsWF c.m c.heralds)
+    (hshape : ∀ s ∈ groups, ∀ q ∈ eng s, q.1.length = c.m ∧ q.1.sum = s.sum)
+    (hvac : ∀ s ∈ groups, s.sum = 0 → eng s = [(s, 1)])
+    (hone : ∀ s ∈ groups, mass (eng s) = 1) :
+    evolveLogical eng c groups =
+      mass (retained (cond { c with userFilter := 0 }) (full eng c.m [⟨1, groups⟩])) := by
+  rw [retained_single eng c groups wf hshape, evolve_logical_perf_member eng c groups hne wf hshape hvac hone]
+
+/-- **evolve_svd_perf_spec.**  `evolve_svd` on a mixture of annotated Fock states: its `physical_perf` (sum of the
+weights of the inputs that pass the photon filter) and its `logical_perf` (`Σ p·logical_perf(input) / physical_perf`)
+are the specification's, for the unconditioned distribution of the whole mixture.  (No hypothesis on the weights.) -/
+theorem evolve_svd_perf_spec (eng : Fock → D) (c : Cfg) (members : List Member)
+    (wf : HeraldsWF c.m c.heralds) (he : EngOK eng c.m members)
+    (hg : ∀ mb ∈ members, mb.groups ≠ [])
+    (hvac : ∀ mb ∈ members, ∀ s ∈ mb.groups, s.sum = 0 → eng s = [(s, 1)]) :
+    (evolveSvd eng c members).1 = physPerf (cond c) (full eng c.m members) ∧
+    (evolveSvd eng c members).2 = logicalPerf (cond c) (full eng c.m members) := by
+  have hphys : physPerf (cond c) (full eng c.m members) = ((kept c members).map (·.w)).sum := by
+    rw [physPerf, restrict_phys_full eng c members he.shape, mass_kept_full eng c members he.massOne]
+  have hret : mass (retained (cond c) (full eng c.m members)) =
+      ((kept c members).map fun mb => mb.w * evolveLogical eng c mb.groups).sum := by
+    have e1 : retained (cond c) (full eng c.m members) =
+        restrict (logicOk (cond c)) (restrict (physOk (cond c)) (full eng c.m members)) := by
+      rw [restrict_restrict]; rfl
+    rw [e1, restrict_phys_full eng c members he.shape, restrict_mix, mass_mix, List.map_map, List.map_map]
+    congr 1
+    apply List.map_congr_left
+    intro mb hmb
+    have hm := mem_kept hmb
+    simp only [Function.comp]
+    rw [evolve_logical_perf_member eng c mb.groups (hg mb hm) wf (he.shape mb hm) (hvac mb hm) (he.massOne mb hm)]
+    rfl
+  refine ⟨hphys.symm, ?_⟩
+  unfold logicalPerf
+  rw [hret, hphys]
+  simp only [evolveSvd]
+  by_cases h0 : ((kept c members).map (·.w)).sum = 0
+  · simp [h0]
+  · simp [h0]
+
+/-- `logical_perf` after `evolve` through a **unitary** circuit: no hypothesis on the engine -/
+theorem evolve_logical_perf_unitary {m : ℕ} (c : Cfg) (hcm : c.m = m) (U : Matrix (Fin m) (Fin m) GQ)
+    (hU : IsUnitary U) (groups : List Fock) (hne : groups ≠ []) (wf : HeraldsWF c.m c.heralds)
+    (hlen : ∀ s ∈ groups, s.length = m) :
+    evolveLogical (probsFock U) c groups =
+      mass (retained (cond { c with userFilter := 0 }) (probsTagged U groups)) := by
+  subst hcm
+  have h1 := evolve_logical_perf_spec (probsFock U) c groups hne wf (fun s _ => probsFock_shape U s)
+    (fun s hs h0 => probsFock_vacuum U s (hlen s hs) h0)
+    (fun s hs => probsFock_total_one U hU s (hlen s hs))
+  rw [h1, full_eq_probsTagged]
+  simp [mix, scale]
+
+/-- `evolve_svd` through a unitary circuit -/
+theorem evolve_svd_perf_unitary {m : ℕ} (c : Cfg) (hcm : c.m = m) (U : Matrix (Fin m) (Fin m) GQ)
+    (hU : IsUnitary U) (members : List Member) (wf : HeraldsWF c.m c.heralds)
+    (hlen : ∀ mb ∈ members, ∀ s ∈ mb.groups, s.length = m) (hg : ∀ mb ∈ members, mb.groups ≠ []) :
+    (evolveSvd (probsFock U) c members).1 =
+      physPerf (cond c) (mix (members.map fun mb => (mb.w, probsTagged U mb.groups))) ∧
+    (evolveSvd (probsFock U) c members).2 =
+      logicalPerf (cond c) (mix (members.map fun mb => (mb.w, probsTagged U mb.groups))) := by
+  subst hcm
+  rw [← full_eq_probsTagged]
+  exact evolve_svd_perf_spec _ c members wf (fock_engine_ok U hU members hlen) hg
+    (fun mb hmb s hs h0 => probsFock_vacuum U s (hlen mb hmb s hs) h0)
+
+/-! non-vacuity: `exCfg` (herald 1 on the middle mode, post-selection `[0] >= 1`), an input with two tag groups and
+one with a vacuum group; the identity engine sends every state to itself (so the vacuum to the vacuum) -/
+
+example : evolveLogical idEng exCfg [[1, 0, 0], [0, 1, 0]] =
+    mass (retained (cond { exCfg with userFilter := 0 }) (full idEng exCfg.m [⟨1, [[1, 0, 0], [0, 1, 0]]⟩])) :=
+  evolve_logical_perf_spec idEng exCfg _ (by simp) exWF (by simp [idEng, exCfg]) (by simp [idEng])
+    (by simp [idEng, mass])
+
+example : evolveLogical idEng exCfg [[1, 1, 0], [0, 0, 0]] = 1 := by
+  rw [evolve_logical_perf_member idEng exCfg _ (by simp) exWF (by simp [idEng, exCfg]) (by simp [idEng])
+    (by simp [idEng, mass])]
+  simp [fullMember, convAll, idEng, conv, restrict, zeros, fadd, logicOk, cond, exCfg, heraldsOk, PS.eval, Cmp.eval,
+    mass, List.replicate]
+
+example : (evolveSvd idEng exCfg exMembers).1 = physPerf (cond exCfg) (full idEng exCfg.m exMembers) ∧
+    (evolveSvd idEng exCfg exMembers).2 = logicalPerf (cond exCfg) (full idEng exCfg.m exMembers) :=
+  evolve_svd_perf_spec idEng exCfg exMembers exWF exEng
+    (by intro mb hmb; simp only [exMembers, List.mem_cons, List.not_mem_nil, or_false] at hmb
+        rcases hmb with rfl | rfl | rfl <;> simp)
+    (by intro mb _ s _ _; rfl)
+
+example : evolveLogical (probsFock PM.C02.exU) uCfg [[1, 0]] =
+    mass (retained (cond { uCfg with userFilter := 0 }) (probsTagged PM.C02.exU [[1, 0]])) :=
+  evolve_logical_perf_unitary (m := 2) uCfg rfl PM.C02.exU exU_isUnitary _ (by simp) uWF (by simp)
+
+/-! ### where `HeraldsWF` comes from -/
+
+/-- **heralds_wf_of_declared.**  A herald dictionary obtained by successful `add_herald` calls on an `m`-mode
+experiment (`declareHeralds`: a call on an occupied mode or outside the circuit raises) is well formed — distinct
+modes inside the circuit — and lists the heralds in declaration order; the hypothesis `HeraldsWF` of the theorems
+above is therefore met by construction. -/
+theorem heralds_wf_of_declared (m : ℕ) (calls h : List (ℕ × ℕ)) (e : declareHeralds m calls = some h) :
+    HeraldsWF m h ∧ h = calls := by
+  have := foldlM_addHerald_wf calls [] h ⟨by simp, by simp⟩ e
+  simpa using this
+
+/-- conversely every well-formed dictionary is declared without an exception -/
+theorem declared_of_heralds_wf (m : ℕ) (h : List (ℕ × ℕ)) (wf : HeraldsWF m h) : declareHeralds m h = some h := by
+  have key : ∀ (calls h0 : List (ℕ × ℕ)), HeraldsWF m (h0 ++ calls) →
+      calls.foldlM (addHerald m) h0 = some (h0 ++ calls) := by
+    intro calls
+    induction calls with
+    | nil => intro h0 _; simp
+    | cons p r ih =>
+      intro h0 wf0
+      have hnd := wf0.nodup
+      rw [List.map_append, List.map_cons, List.nodup_append] at hnd
+      have h1 : addHerald m h0 p = some (h0 ++ [p]) := by
+        unfold addHerald
+        have ha : ¬ p.1 ∈ h0.map (·.1) := fun hm => hnd.2.2 _ hm _ List.mem_cons_self rfl
+        have hb : p.1 < m := wf0.inRange p (by simp)
+        have : ((h0.map (·.1)).contains p.1 || decide (m ≤ p.1)) = false := by
+          simp only [Bool.or_eq_false_iff, decide_eq_false_iff_not, not_le]
+          exact ⟨by simpa using ha, hb⟩
+        rw [this]; rfl
+      simp only [List.foldlM_cons, Option.bind_eq_bind, h1, Option.bind_some]
+      have := ih (h0 ++ [p]) (by simpa using wf0)
+      simpa using this
+  simpa [declareHeralds] using key h [] (by simpa using wf)
+
+example : declareHeralds 4 [(2, 0), (1, 1)] = some [(2, 0), (1, 1)] ∧ declareHeralds 4 [(2, 0), (2, 1)] = none ∧
+    declareHeralds 4 [(4, 1)] = none := by decide
+
+example : HeraldsWF 4 [(2, 0), (1, 1)] := (heralds_wf_of_declared 4 [(2, 0), (1, 1)] _ (by decide)).1
+
+
+/-! ### what is still NOT a theorem
+
+* the probability-trimming thresholds of `_preprocess_svd` / `list_tensor_product` (the check runs at precision 0);
+* the superposed-input path `_probs_svd_generic` and `evolve` of a genuine superposition (interference between the
+  terms): compared with the specification by the correspondence only;
+* the *distribution* returned by `evolve` after discarding heralded modes that hold distinguishable photons
+  (`post_select_statevector` adds amplitudes of components that differ only by the tags of the discarded photons):
+  only its logical performance is modelled and proved (`evolve_logical_perf_spec`), and `evolve_mask_invariance`
+  for the accepted squared amplitudes before the heralded modes are removed;
+* `evolveSvd`, `declareHeralds` are models written from the source that the correspondence does not exercise by
+  themselves (`evolve_svd`'s two performances agree with `probs_svd`'s on the same input, checked by hand);
+* that the closed-form kernel tables handed to `Det.table` are `Detector.detect`'s (C08's subject) — here a
+  hypothesis `KernsOK` on the tables; for `Detector.pnr/threshold` it is proved (`kernsOK_builtin`);
+* the degenerate logical performance of the detector path (`logical_perf_nonpnr_detectors_full`: the code reports
+  1 where the conditional probability is undefined) is *characterised*, not repaired;
+* history-independence of a reused simulator object (the model is a function of one request). -/
 
 end PM.C04
